@@ -79,6 +79,32 @@ fn check_forest(levels: &[u16], vis: &dyn Fn(usize) -> bool, sample_only: bool, 
             }
         }
     }
+    // stacked variant (small forests): every image layer carries an opaque cel covering the whole 2x1 canvas, so
+    // the frame shows the colour of the topmost visible image layer, or nothing - a renderer that culls what lies
+    // under an opaque cel has to use the same notion of visibility as is_visible()
+    if n <= 64 {
+        let mut s2 = s.clone();
+        s2.width = 2;
+        for c in s2.frames[0].cels.iter_mut() {
+            c.x = 0;
+            let col = (c.layer as usize % 251) as u8 + 1;
+            c.content = CelContent::Image { w: 2, h: 1, pixels: vec![col, 7, 9, 255, col, 7, 9, 255] };
+        }
+        let enc2 = encode(&s2, &plan);
+        let f2 = AsepriteFile::read(&enc2.bytes[..]).map_err(|e| Failure::new("load-error", format!("stacked forest failed to load: {}", e)))?;
+        let img = f2.frame(0).image();
+        let top = (0..n).rev().find(|i| s.layers[*i].kind == LayerKind::Image && s.layer_visible(*i));
+        let want: [u8; 4] = match top {
+            Some(i) => [(i % 251) as u8 + 1, 7, 9, 255],
+            None => [0, 0, 0, 0],
+        };
+        for x in 0..2 {
+            let px = img.get_pixel(x, 0).0;
+            if px != want && !(px[3] == 0 && want[3] == 0) {
+                return Err(Failure::new("frame-visibility-stacked", format!("all image layers carry an opaque full-canvas cel; frame pixel {} is {:?}, the topmost visible image layer ({:?}) gives {:?}", x, px, top, want)));
+            }
+        }
+    }
     let mut labels = vec![];
     if depth2 {
         labels.push("depth>=2");
